@@ -83,6 +83,42 @@ def innermost_repo_frame(tb):
     return where
 
 
+# results handed back earlier must stay what they were: the last few returned arrays are kept (the objects themselves) with a
+# snapshot of their bytes, and re-read after every later call (a library that recycles an internal buffer shows up here)
+RECENT = []  # [raw result, snapshot bytes, function name, flags as returned]
+ALIAS_EVENTS = []
+RECENT_MAX = 6
+COUNTS = {"results_rechecked_after_later_calls": 0}
+
+
+def _result_bytes(r):
+    try:
+        return np.ascontiguousarray(np.ma.getdata(r)).tobytes() + np.ascontiguousarray(np.ma.getmaskarray(r)).tobytes()
+    except Exception:  # noqa: BLE001
+        return None
+
+
+def _recheck_recent(later):
+    for ent in RECENT:
+        COUNTS["results_rechecked_after_later_calls"] += 1
+        now = _result_bytes(ent[0])
+        if now is not None and now != ent[1]:
+            try:
+                after = np.asarray(np.ma.getdata(ent[0])).reshape(-1)[:40].tolist()
+            except Exception:  # noqa: BLE001
+                after = None
+            ALIAS_EVENTS.append({"earlier_call": ent[2], "later_call": later, "flags_as_returned": ent[3], "flags_now": after})
+            ent[1] = now  # report each change once
+
+
+def drain_alias(ctx, prefix) -> None:
+    """turn buffered 'an earlier result changed' observations into violations of the running check"""
+    ctx.counters["client.results_rechecked_after_later_calls"] = COUNTS["results_rechecked_after_later_calls"]
+    while ALIAS_EVENTS:
+        ev = ALIAS_EVENTS.pop()
+        ctx.violation(f"{prefix}:earlier-result-changed-by-later-call:{ev['earlier_call']}", {"kind": "alias", **ev})
+
+
 def invoke(name, kwargs, check_purity=True) -> Outcome:
     fn = resolve(name) if isinstance(name, str) else name
     o = Outcome()
@@ -108,6 +144,14 @@ def invoke(name, kwargs, check_purity=True) -> Outcome:
         for k, v in kwargs.items():
             if _snap(v) != before[k]:
                 o.mutated.append(k)
+    fname = name if isinstance(name, str) else getattr(fn, "__name__", "?")
+    _recheck_recent(fname)
+    if o.kind == "return" and o.flags is not None and 0 < o.flags.size <= 4096:
+        snap = _result_bytes(o.raw)
+        if snap is not None:
+            RECENT.append([o.raw, snap, fname, o.flags.reshape(-1)[:40].tolist()])
+            if len(RECENT) > RECENT_MAX:
+                RECENT.pop(0)
     return o
 
 
